@@ -23,7 +23,7 @@
               E_indu_stat = induced dipoles times the static-field accumulators; the off-diagonal blocks
               of the DipoleDipoleInteraction operator are the Thole tensor, the operator is symmetric
               and its product with a dipole vector is the induced field.                   *)
-EXTENDS Multipole, Json
+EXTENDS Multipole, Json, IOUtils
 
 CONSTANTS Tpl,        \* sequence of moment templates [r, q, d, s]
           Vecs,       \* separation vectors (set) for the relational families
@@ -36,10 +36,12 @@ CONSTANTS Tpl,        \* sequence of moment templates [r, q, d, s]
           Mults,      \* integer multipliers
           Damps,      \* damping parameters (hundredths)
           TholeTpl,   \* template indices used in field/induced thinning
-          Fams,       \* families to emit
           Emit
 VARIABLES c, ph
 vars == <<c, ph>>
+\* families to emit: all, or the one named in the environment (thorough tier: one TLC run per family, bounded memory)
+Fams == IF "C15_FAM" \in DOMAIN IOEnv THEN {IOEnv.C15_FAM}
+        ELSE {"motion", "exact", "bilinear", "field", "thole", "induced"}
 
 NT == Len(Tpl)
 TransList == << <<0, 0, 0>>, <<3, -1, 2>>, <<-5, 4, 0>>, <<1, 1, -7>> >>
